@@ -8,7 +8,7 @@ trap 'rm -rf "$d"' EXIT
 mkdir -p "$d/src" && cp -r /repo/src/pyhf "$d/src/pyhf"
 case "$patch" in
   -R:*) git -C /repo show "${patch#-R:}" -- src | patch -R -p1 -d "$d" >/dev/null ;;
-  *) patch -p1 -d "$d" < "$patch" >/dev/null ;;
+  *) patch -p1 -d "$d" < "$patch" >/dev/null || { echo "PATCH DOES NOT APPLY: $patch"; exit 3; } ;;
 esac
 tier=${VERIF_TIER:-quick}
 for c in "$@"; do
